@@ -493,6 +493,20 @@ def laws(rng, tier, ctx):
             checks.append(('law-us-rejects-uk', L('str', 'us', s_(uku)), safe(dt, uku, dialect='us'), 'raise ValueError'))
             checks.append(('law-uk-rejects-us', L('str', 'uk', s_(usp)), safe(dt, usp), 'raise ValueError'))
             checks.append(('law-us-rejects-uk', L('str', 'us', s_(ukp)), safe(dt, ukp, dialect='us'), 'raise ValueError'))
+        # two-digit years: the text does not carry the century (dateutil picks the one within 50 years of TODAY), so "equals t" is not
+        # claimed - but day and month are, and so is the rejection of the other dialect's unambiguous text
+        sep2 = rng.choice('/-. ')
+        f2 = '%02d' if rng.random() < 0.7 else '%d'
+        uk2 = (f2 + sep2 + f2 + sep2 + '%02d') % (t.day, t.month, t.year % 100)
+        us2 = (f2 + sep2 + f2 + sep2 + '%02d') % (t.month, t.day, t.year % 100)
+        for tag2, txt, dia in (('law-yy-uk', uk2, 'uk'), ('law-yy-us', us2, 'us')):
+            got = safe(dt, txt, dialect=dia)
+            count += 1
+            if not (isinstance(got, datetime.datetime) and (got.day, got.month, got.year % 100) == (t.day, t.month, t.year % 100)):
+                yield bad(tag2, L('str', dia, s_(txt)), 'got %s, the property demands day %d, month %d, year ..%02d' % (got, t.day, t.month, t.year % 100))
+        if t.day > 12:
+            checks.append(('law-yy-uk-rejects-us', L('str', 'uk', s_(us2)), safe(dt, us2), 'raise ValueError'))
+            checks.append(('law-yy-us-rejects-uk', L('str', 'us', s_(uk2)), safe(dt, uk2, dialect='us'), 'raise ValueError'))
         for tag, ln, got, want in checks:
             count += 1
             ok = (got == want) if not isinstance(want, str) else (isinstance(got, str) and got in ('raise ValueError', 'raise ParserError'))
